@@ -110,6 +110,8 @@ def gen_workload(tape, *, max_funcs=5, max_size=3, allow_gen=True, allow_tuple=T
             fd["dict_out"] = True  # returns {name: value}, picked by a custom output_picker
         if tape.coin(0.08, "debug-flag"):
             fd["debug"] = True
+        if tape.coin(0.05, "profile-flag"):
+            fd["profile"] = True  # every call runs under a ResourceProfiler (a real sampling thread)
         if n_out == 1 and kind != "gen" and tape.coin(0.1, "sequence-valued"):
             fd["seq_out"] = True  # each element / the single result is a 2-tuple
         elif n_out == 1 and kind != "gen" and tape.coin(0.1, "result-like"):
@@ -126,6 +128,8 @@ def gen_workload(tape, *, max_funcs=5, max_size=3, allow_gen=True, allow_tuple=T
             fd["params"].append(d)
             where = tape.pick(["sig", "pipefunc"], "default-where")
             (fd["sig_defaults"] if where == "sig" else fd["defaults"])[d] = f"{d}-default"
+            if where == "pipefunc" and tape.coin(0.15, "string-array-default"):
+                fd["defaults"][d] = f"<strarr>{d}"  # a NumPy array of strings: `==`/array_equal(equal_nan) cannot compare it
             # sometimes the caller overrides the default through `inputs`
             inputs[d] = {"axes": [], "kind": "default", "base": 0,
                          "provided": bool(tape.coin(0.4, "default-provided"))}
@@ -180,9 +184,55 @@ def gen_workload(tape, *, max_funcs=5, max_size=3, allow_gen=True, allow_tuple=T
         if len(roots) >= 2:
             chosen = tape.shuffle(roots, "scope-pick")[: 2 + tape.choose(2, "scope-n")]
             inputs = _apply_scope(funcs, inputs, chosen, "sc")
+    # mapped root arrays and function defaults: the array a map runs over may come from a default only, or a
+    # default of another length may be overridden by the caller's input (which then decides shape and values)
+    if allow_defaults:
+        for name in sorted(inputs):
+            d = inputs[name]
+            users = [fd for fd in funcs if name in fd["params"]]
+            if d["kind"] not in ("list", "ndarray") or len(users) != 1:
+                continue
+            if tape.coin(0.07, "array-from-default"):
+                d["via_default"] = True
+            elif tape.coin(0.08, "shadowed-array-default"):
+                d["shadow_default"] = tape.pick([-1, -1, 1], "shadow-len")  # default is shorter / longer than the input
     w = {"indices": idx_size, "inputs": inputs, "functions": funcs,
          "internal_via": tape.pick(["pipefunc", "map-arg", "both"], "internal-via")}
     return w
+
+
+def _array_value(name, d, shape):
+    n = int(np.prod(shape))
+    if d["kind"] == "list":
+        return [f"{name}.{i}" for i in range(n)]
+    return (d["base"] + np.arange(n)).reshape(shape)
+
+
+def plain_defaults(fd):
+    """PipeFunc defaults of a function with the value markers expanded."""
+    out = {}
+    for k, v in (fd.get("defaults") or {}).items():
+        if isinstance(v, str) and v.startswith("<strarr>"):
+            v = np.array([f"{v[8:]}-a", f"{v[8:]}-b", f"{v[8:]}-c"])
+        out[k] = v
+    return out
+
+
+def array_defaults(w, fd):
+    """PipeFunc defaults that are arrays: {param: value} for the roots this function takes from / shadows by a default."""
+    out = {}
+    for name in fd["params"]:
+        d = w["inputs"].get(name)
+        if not d or d["kind"] not in ("list", "ndarray"):
+            continue
+        shape = tuple(w["indices"][a] for a in d["axes"])
+        if d.get("via_default"):
+            out[name] = _array_value(name, d, shape)
+        elif d.get("shadow_default"):
+            first = max(0, shape[0] + d["shadow_default"])
+            v = _array_value(name + "-default", d, (first, *shape[1:]))
+            out[name] = v
+    return out
 
 
 def _apply_scope(funcs, inputs, names, scope):
@@ -222,13 +272,11 @@ def build_inputs(w):
         elif d["kind"] == "default":
             if d.get("provided"):
                 out[name] = f"{name}-given"
+        elif d.get("via_default"):
+            continue  # the array is a function default, the caller does not pass it
         else:
             shape = tuple(w["indices"][a] for a in d["axes"])
-            n = int(np.prod(shape))
-            if d["kind"] == "list":
-                out[name] = [f"{name}.{i}" for i in range(n)]
-            else:
-                out[name] = (d["base"] + np.arange(n)).reshape(shape)
+            out[name] = _array_value(name, d, shape)
     return out
 
 
@@ -265,7 +313,9 @@ def build_pipeline(w, *, cached=(), tags=None, **pipeline_kwargs):
             kw["output_picker"] = dict_picker
         if fd.get("debug"):
             kw["debug"] = True
-        pfs.append(PipeFunc(fn, out, mapspec=fd.get("mapspec"), defaults=dict(fd.get("defaults") or {}) or None,
+        if fd.get("profile"):
+            kw["profile"] = True
+        pfs.append(PipeFunc(fn, out, mapspec=fd.get("mapspec"), defaults={**plain_defaults(fd), **array_defaults(w, fd)} or None,
                             bound=dict(fd.get("bound") or {}) or None, cache=fd["name"] in cached,
                             resources_scope=fd.get("resources_scope", "map"), **kw))
     return Pipeline(pfs, **pipeline_kwargs)
@@ -291,7 +341,9 @@ def results_canon(res, w):
 def describe(w):
     return {
         "indices": w["indices"],
-        "inputs": {k: (v["kind"], v["axes"]) for k, v in w["inputs"].items()},
+        "inputs": {k: (v["kind"], v["axes"], *(["via-default"] if v.get("via_default") else []),
+                       *([f"shadowed-default{v['shadow_default']:+d}"] if v.get("shadow_default") else []))
+                   for k, v in w["inputs"].items()},
         "functions": [
             {"f": fd["name"], "params": fd["params"], "out": fd["outputs"], "mapspec": fd["mapspec"],
              **({"out_shape": fd["out_shape"]} if fd.get("out_shape") else {}),
@@ -301,6 +353,7 @@ def describe(w):
              **({"renamed": fd["renamed"]} if fd.get("renamed") else {}),
              **({"dict_out": True} if fd.get("dict_out") else {}),
              **({"debug": True} if fd.get("debug") else {}),
+             **({"profile": True} if fd.get("profile") else {}),
              **({"result_like": True} if fd.get("result_like") else {}),
              **({"bound": fd["bound"]} if fd.get("bound") else {}),
              **({"defaults": {**fd["defaults"], **fd["sig_defaults"]}} if fd.get("defaults") or fd.get("sig_defaults") else {})}
@@ -349,6 +402,8 @@ def gen_dag(tape, *, min_funcs=2, max_funcs=5, allow_tuple=True, allow_defaults=
             where = tape.pick(["sig", "pipefunc"], "default-where")
             (fd["sig_defaults"] if where == "sig" else fd["defaults"])[d] = f"{d}-default"
             inputs[d] = {"axes": [], "kind": "default", "base": 0, "provided": bool(tape.coin(0.4, "default-provided"))}
+        if tape.coin(0.06, "profile-flag"):
+            fd["profile"] = True
         funcs.append(fd)
         values.extend(fd["outputs"])
     _none_only_for_leaves(funcs)
